@@ -174,7 +174,7 @@ var infoField = map[string]string{"Title": "Title", "PlayResX": "SSAPlayResX", "
 var strs = map[int]string{1: "Someone, somewhere", 2: "another: value"}
 
 var (
-	names   = map[int]string{1: "Main", 2: "Alt style", 3: "Third"}
+	names   = map[int]string{1: "Main", 2: "*Alt style", 3: "Third"} // a style may itself be defined under a name with an asterisk
 	fonts   = map[int]string{1: "Arial", 2: "Comic Sans MS"}
 	floats  = map[int]float64{1: 4, 2: 0.1, 3: 12.5}
 	floatS  = map[int]string{1: "4", 2: "0.1", 3: "12.5"}
@@ -217,7 +217,7 @@ func cell(typ string, v int, d Doc, p Pool) string {
 		if v == 0 {
 			return ""
 		}
-		if d.Star {
+		if d.Star && !strings.HasPrefix(names[v], "*") {
 			return "*" + names[v]
 		}
 		return names[v]
@@ -275,6 +275,9 @@ func parseCell(typ, s string) int {
 	case "style":
 		if s == "" {
 			return 0
+		}
+		if v := revS(names, s); v >= 0 {
+			return v
 		}
 		return revS(names, strings.TrimPrefix(s, "*"))
 	case "font":
